@@ -26,6 +26,7 @@ ASSUME StdCipherIsWordCipher ==      \* whole dwords: same as MpqCrypto's block 
       /\ SubSeq(StdCryptBytes(bs, kk, StdEncWords), 9, 11) = <<9,10,11>>
       /\ StdCryptBytes(StdCryptBytes(bs, kk, StdEncWords), kk, StdDecWords) = bs
       /\ UnitDecrypt(UnitEncrypt(bs, kk, LibW), kk, LibR) = bs
+      /\ UnitEncrypt(bs, kk, LibW) = EncryptBytes(bs, kk)      \* today MpqCrypto's byte wrapper is the `tail` rule
       /\ UnitEncrypt(bs, kk, LibW) # UnitEncrypt(bs, kk, Std)
 
 \* model size: "cov" (tiny, run under -coverage for the vacuity guard), "quick", "thorough"
@@ -53,14 +54,16 @@ Shape(kind, ssz) ==
                             sectors |-> IF ssz = 8 THEN <<Cmp(M_BZIP2, Ramp(70, 2)), Raw(Ramp(80, 8)), Cmp(M_ZLIB, Ramp(90, 1))>>
                                         ELSE <<Cmp(M_ZLIB, Ramp(70, 4)), Raw(Ramp(80, 3))>>]
 
-Kinds1 == {"tiny", "unitcmp", "bigunit", "empty", "flagraw", "rawsecs", "cmpsecs"}
+Kinds1 == {"tiny", "unitcmp", "bigunit", "empty", "flagraw", "rawsecs", "cmpsecs", "crcsecs"}
 Kinds2 == CASE Model = "cov" -> {"cmpsecs"} [] Model = "quick" -> {"cmpsecs"}
             [] OTHER -> {"tiny", "rawsecs", "cmpsecs", "unitcmp"}
 Encs1  == IF Model = "cov" THEN {"fix"} ELSE {"plain", "enc", "fix"}
 Encs2  == CASE Model = "cov" -> {"enc"} [] Model = "quick" -> {"fix"} [] OTHER -> {"plain", "enc", "fix"}
 Dialects == IF Model = "cov" THEN {Std} ELSE {Std, LibW, LibR}
 
-MkFile(name, kind, enc, ssz) == [name |-> name, enc |-> enc] @@ Shape(kind, ssz)
+\* kind "crcsecs" = "cmpsecs" with sector checksums
+MkFile(name, kind, enc, ssz) == [name |-> name, enc |-> enc, locale |-> 0, crc |-> kind = "crcsecs"]
+                                @@ Shape(IF kind = "crcsecs" THEN "cmpsecs" ELSE kind, ssz)
 Prefix512 == [pi \in 1..512 |-> (pi * 7) % 251]
 
 Cfgs == {[ver |-> cc[1], shift |-> cc[2], hcount |-> 4, ndel |-> cc[3], hibt |-> cc[4],
@@ -77,7 +80,8 @@ SSz == SectorSize(vcfg.shift)
 Init == /\ vcfg \in Cfgs
         /\ vdial \in Dialects
         /\ \E k1 \in Kinds1, e1 \in Encs1, k2 \in Kinds2, e2 \in Encs2 :
-             vfiles = << MkFile(NameB, k1, e1, SectorSize(vcfg.shift)), MkFile(NameA, k2, e2, SectorSize(vcfg.shift)) >>
+             /\ (k1 = "crcsecs" => vdial # LibW)       \* the writer side of `crclayout` is not modelled
+             /\ vfiles = << MkFile(NameB, k1, e1, SectorSize(vcfg.shift)), MkFile(NameA, k2, e2, SectorSize(vcfg.shift)) >>
         /\ vwst = <<>> /\ vphase = "begin" /\ vnext = 1 /\ vimg = <<>> /\ vchecked = {}
 
 MBegin == /\ vphase = "begin"
@@ -113,7 +117,8 @@ Names == {vfiles[fi].name : fi \in 1..Len(vfiles)}
 Decoded(dd) == RefRead(vimg, Names \cup {Absent}, dd)
 Matches(dec, f) == /\ dec.res = "ok" /\ dec.fsize = f.fsize /\ dec.enc = f.enc
                    /\ dec.single = f.single /\ dec.cflag = f.cflag
-                   /\ dec.sectors = ExpectSectors(f, SSz)
+                   /\ dec.sectors = ExpectSectors(f, SSz) /\ dec.locale = 0 /\ dec.platform = 0
+                   /\ dec.crc = (IF f.crc /\ f.cflag /\ ~f.single /\ f.fsize > 0 THEN "ok" ELSE "none")
 
 \* layout facts while writing: block entries point inside the image, in order, no overlap
 LayoutOk == vphase \in {"files", "block", "hiblock", "header"} =>
